@@ -23,6 +23,7 @@ EXPLANATION = (
     "(or the renamed table's own self-loop), no bulk removal; R03.4 the RENAME loop must not iterate an unordered set with a "
     "non-commuting body (known finding, shared with C11). Does not decide: that holder.read/write are right (C01), nor "
     "order-independence of the fold as a theorem."
+    ' R03.5 / R03.6 are shared clauses of C05: the splitter hands over every statement once and in order, one holder per statement.'
 )
 RULE_TEXT = (
     "R03.1: 3 predicates x all feasible valuations of 5 atoms (exhaustive) + tag-dependency obligations; R03.2-4: one obligation per "
